@@ -200,13 +200,17 @@ func ReadFrom(r io.Reader) (idx Index, err error) {
 		} else if _, exists := idx[rec[nameField]]; exists {
 			return nil, parseError(line, 0, ErrNonUnique)
 		}
-		idx[rec[nameField]] = Record{
+		r := Record{
 			Name:         rec[nameField],
 			Length:       mustAtoi(rec, lengthField, line),
 			Start:        mustAtoi64(rec, startField, line),
 			BasesPerLine: mustAtoi(rec, basesField, line),
 			BytesPerLine: mustAtoi(rec, bytesField, line),
 		}
+		if r.Length < 0 || r.Start < 0 || r.BasesPerLine < 0 || r.BytesPerLine < r.BasesPerLine || (r.Length > 0 && r.BasesPerLine == 0) {
+			return nil, parseError(line, 0, errors.New("invalid record layout"))
+		}
+		idx[rec[nameField]] = r
 	}
 }
 
